@@ -172,4 +172,72 @@ def byName (r : Reg) (a n : Nat) : Except Err Nat :=
 /-- `list(Base.get_msg_classes())` -/
 def classes (r : Reg) (a : Nat) : List Nat := (r.ids.filter (fun e => e.app == a)).map (·.cls)
 
+/-! ### Where a class statement stands (seeded change C19i: "module reload support")
+
+Everything Python knows about a class object *besides its identity*: the module it was defined in, the syntactic form of
+the definition (which fixes `__qualname__`), and what the module namespace binds its name to at that moment.
+`CommonMessage.__init_subclass__` reads NONE of it (`MsgIdToClsMap[app][id] != cls` is an identity test): `stepAt` carries
+the site along, keeps the module namespaces the way Python does, and hands only the `Decl` to `defineMsg`.
+`Props/C19Names.lean` states the independence as theorems. -/
+
+/-- how the class is created -/
+inductive Form where
+  | bare        -- class statement executed in a namespace that is no module (`__module__` = 'builtins')
+  | topLevel    -- top-level class statement of a module: `__qualname__ = __name__`, binds the module attribute
+  | factory     -- class statement inside a function of the module: `__qualname__ = make_X.<locals>.X`
+  | metaCall    -- `type(Base)(name, bases, ns, **kw)` in the module: `__qualname__ = __name__`
+  deriving Repr, DecidableEq, Inhabited
+
+structure Site where
+  modl : Nat            -- `__module__` (modules numbered by the harness)
+  form : Form
+  bind : Bool           -- on success the statement assigns the new class to the module attribute `__name__`
+  unbind : Bool         -- … and the attribute is deleted again afterwards
+  deriving Repr, DecidableEq, Inhabited
+
+/-- a class statement together with the place it is written at -/
+structure SDecl where
+  decl : Decl
+  site : Site
+  deriving Repr, DecidableEq, Inhabited
+
+/-- the module namespaces, as far as class names go: ((module, name), class bound) -/
+abbrev Binds := List ((Nat × Nat) × Nat)
+
+def bindGet (b : Binds) (m n : Nat) : Option Nat := (b.find? (fun e => e.1 == (m, n))).map (·.2)
+def bindDel (b : Binds) (m n : Nat) : Binds := b.filter (fun e => e.1 != (m, n))
+def bindSet (b : Binds) (m n c : Nat) : Binds := ((m, n), c) :: bindDel b m n
+
+/-- does the statement bind a module attribute when it succeeds -/
+def Site.binds (s : Site) : Bool :=
+  match s.form with
+  | .bare => false
+  | .topLevel => true
+  | _ => s.bind
+
+structure World where
+  reg : Reg
+  binds : Binds
+  deriving Repr, DecidableEq, Inhabited
+
+def World.empty : World := { reg := Reg.empty, binds := [] }
+
+/-- one class statement at its site.  A statement that raises binds nothing (the old class stays bound). -/
+def stepAt (w : World) (sd : SDecl) : World :=
+  match defineMsg w.reg sd.decl with
+  | .error _ => w
+  | .ok r' =>
+    let b1 := if sd.site.binds then bindSet w.binds sd.site.modl sd.decl.name sd.decl.cid else w.binds
+    let b2 := if sd.site.unbind && sd.site.form != .bare then bindDel b1 sd.site.modl sd.decl.name else b1
+    { reg := r', binds := b2 }
+
+def runAt (w : World) (sds : List SDecl) : World := sds.foldl stepAt w
+
+/-- what the "reload" test of the seeded change would look at when `sd` is defined while class `existing` (defined at
+    `site0` under `name0`) holds the id: same module, same qualified name, module attribute still bound to `existing` -/
+def looksLikeReload (w : World) (name0 : Nat) (site0 : Site) (existing : Nat) (sd : SDecl) : Bool :=
+  site0.modl == sd.site.modl && name0 == sd.decl.name && site0.form == sd.site.form &&
+  (sd.site.form == .topLevel || sd.site.form == .metaCall) &&
+  bindGet w.binds sd.site.modl sd.decl.name == some existing
+
 end NasdaqModel.Registry
